@@ -4,6 +4,7 @@ package c11
 
 import (
 	"fmt"
+	"math"
 	"reflect"
 	"runtime"
 	"sync"
@@ -128,6 +129,8 @@ func runOnce(c *Case) (string, int64) {
 		b.Set(0, kit.IV(stampOf(g, cycle)))
 		return b.Get(0)
 	}
+	isFloat := kit.Info(c.T).Kind == kit.Float
+	negZero := kit.FV(math.Copysign(0, -1))
 	var recycled atomic.Int64
 	var owners sync.Map // buffer object -> goroutine holding it (only with c.Table)
 	start := make(chan struct{})
@@ -211,6 +214,9 @@ func runOnce(c *Case) (string, int64) {
 						}
 					}
 					st := stampVal(g, cycle*hold+hi)
+					if isFloat && (g+cycle+hi)%4 == 0 {
+						st = negZero // equal to 0, yet a different sample: a recycled buffer must read +0
+					}
 					for i := 0; i < n; i++ {
 						full.Set(i, st)
 					}
